@@ -30,15 +30,15 @@ if [ "${VERIF_SKIP_SUITE:-0}" != 1 ]; then
   # must not be mistaken for splice damage)
   ok=0
   for attempt in 1 2 3; do
-    if $GO test -vet=off -count=1 -parallel 1 ./... >"$SCR/suite.log" 2>&1; then ok=1; break; fi
+    if $GO test -trimpath -vet=off -count=1 -parallel 1 ./... >"$SCR/suite.log" 2>&1; then ok=1; break; fi
     grep -q "build failed\|cannot find\|syntax error" "$SCR/suite.log" && break
   done
   [ $ok = 1 ] || { tail -30 "$SCR/suite.log" >&2; die "repository test suite fails on the instrumented copy (or does not build)"; }
 fi
 if [ "$MODE" = plain ] || [ "$MODE" = both ]; then
-  $GO build -o "$SCR/jmsim" ./internal/simharness >"$SCR/build.log" 2>&1 || { tail -30 "$SCR/build.log" >&2; die "harness build failed"; }
+  $GO build -trimpath -o "$SCR/jmsim" ./internal/simharness >"$SCR/build.log" 2>&1 || { tail -30 "$SCR/build.log" >&2; die "harness build failed"; }
 fi
 if [ "$MODE" = race ] || [ "$MODE" = both ]; then
-  $GO build -race -o "$SCR/jmsim.race" ./internal/simharness >"$SCR/build-race.log" 2>&1 || { tail -30 "$SCR/build-race.log" >&2; die "harness race build failed"; }
+  $GO build -trimpath -race -o "$SCR/jmsim.race" ./internal/simharness >"$SCR/build-race.log" 2>&1 || { tail -30 "$SCR/build-race.log" >&2; die "harness race build failed"; }
 fi
 exit 0
